@@ -1,9 +1,11 @@
 from construct.core import ConstructError
+from struct import error as StructError
 from construct.core import Subconstruct
 from construct.core import Switch
 from construct.expr import this
 
 from smpl_extract.util.fat import RequestedInvalidSector
+from smpl_extract.util.stream import SectorReadError
 
 from .data_types import FileType
 from .data_types import InvalidCharacter
@@ -40,7 +42,12 @@ class FileAdapter(Subconstruct):
                 stream, 
                 **context
             )
-        except (RequestedInvalidSector, InvalidCharacter) as e:
+        except (
+                RequestedInvalidSector, 
+                InvalidCharacter, 
+                SectorReadError,
+                StructError
+        ) as e:
             raise ConstructError from e
 
         return file
